@@ -389,3 +389,38 @@ def run_fmt(P, rep):
                     rep.viol("R-WPROP.fmt", site, P.where(fn, line), what)
             else:
                 rep.ok("R-WPROP.fmt", site, where, "fmt::Result propagated")
+
+
+def run_sink_identity(P, rep, rule="R-SINKPASS"):
+    """Whatever is handed on as `&mut dyn Write` is the caller's own sink (a reborrow of the writer parameter) or a fresh
+    local Vec<u8> buffer — never an adapter wrapped around the sink (buffering adapters surface errors at flush/drop,
+    where they are lost, and reorder the failure point)."""
+    from r_scope import unsize_source
+    n = 0
+    for fn in sorted(P.fns.values(), key=lambda f: f.id):
+        if fn.crate not in LIB_CRATES:
+            continue
+        # which parameter (if any) is the sink
+        sink_params = [l for l in range(1, fn.argc + 1) if P.local_ty(fn, l) == "&mut dyn std::io::Write"]
+        ordn = 0
+        for bi, t in P.calls(fn):
+            for k, a in enumerate(t["args"]):
+                ol = op_local(a)
+                if not ol or ol[1] or P.local_ty(fn, ol[0]) != "&mut dyn std::io::Write":
+                    continue
+                n += 1
+                site = "%s sink-arg#%d" % (fn.key, ordn)
+                ordn += 1
+                kind, v = unsize_source(P, fn, ol[0])
+                where = P.where(fn, t["line"])
+                if kind == "passthrough" and v in sink_params:
+                    rep.ok(rule, site, where, "the caller's own writer is handed on")
+                elif kind == "unsize" and v in ("&mut alloc::vec::Vec<u8>",):
+                    rep.ok(rule, site, where, "a local Vec<u8> buffer")
+                elif kind == "unsize" and v.startswith("&mut ") and sink_params == [] and "Vec<u8>" in v:
+                    rep.ok(rule, site, where, "a local Vec<u8> buffer")
+                else:
+                    rep.viol(rule, site, where,
+                             "the sink handed on is %s, not the caller's writer itself: an adapter around the sink (buffering, wrapping) "
+                             "reports failures late or drops them at flush/Drop, so render_to can return Ok after a failed write" % (v if kind == "unsize" else kind))
+    rep.analysed[rule + ".sink_args"] = n
